@@ -2,7 +2,7 @@
   Soundness of the class-directed dispatch (`_wrap_add_sub`, `_wrap_add_sub_matrix`,
   `_wrap_mul_div_scalar`, `__matmul__`/`__rmatmul__` priorities, `__call__`) on the repaired tree.
 -/
-import Scico.Proofs.OpAlgDiag
+import Scico.Proofs.OpAlgDiag2
 
 namespace Scico.OpAlg
 open Scico.DType
@@ -294,10 +294,10 @@ theorem call_sound {a b o : Obj K} {Da Db : Mx K} (ha : Sound a Da) (hb : Sound 
   · obtain ⟨hS, hi, ho⟩ := linCall_sound _ ha hb h
     exact ⟨hS, by simp only [Obj.m, ho], by simp only [Obj.n, hi]⟩
 
-/-- every `Diagonal @ Diagonal-family` product in sight is free of broadcasting between the two
-    diagonals (see `DiagProductPlain`) -/
+/-- a `Diagonal @ Diagonal-family` product on BlockArray shapes is free of broadcasting between the two
+    diagonals (see `DiagProductOk`; nothing is required when the shapes are plain) -/
 def MatmulPlain (a b : Obj K) : Prop :=
-  a.md.cls = .diag → IsDiagCls b.md.cls → DiagProductPlain a b
+  a.md.cls = .diag → IsDiagCls b.md.cls → DiagProductOk a b
 
 /-- `a @ b` -/
 theorem matmul_sound {a b o : Obj K} {Da Db : Mx K} (ha : Sound a Da) (hb : Sound b Db)
@@ -348,7 +348,7 @@ theorem matmul_sound {a b o : Obj K} {Da Db : Mx K} (ha : Sound a Da) (hb : Soun
         exact ⟨hS, by simp only [Obj.m, ho], by simp only [Obj.n, hi]⟩
       · rename_i hdiag
         have hd : a.md.cls = .diag := by simpa [Obj.cls] using hdiag
-        obtain ⟨hS, hi, ho⟩ := diagMatmul_sound ha hb (Or.inl hd) h (hR hd)
+        obtain ⟨hS, hi, ho⟩ := diagMatmul_sound' ha hb (Or.inl hd) h (hR hd)
         exact ⟨hS, by simp only [Obj.m, ho], by simp only [Obj.n, hi]⟩
       · exact call_sound ha hb h
 
